@@ -1,10 +1,10 @@
 CONSTANTS
   K = 1
-  MaxConns = 2
-  MaxNonReady = 0
+  MaxConns = 3
+  MaxNonReady = 1
   MaxCreatePend = 0
-  MaxTicks = 4
-  MaxStops = 1
+  MaxTicks = 0
+  MaxStops = 0
   Timeout = 2
   ReadyCheckOnce = FALSE
   RestartAll = FALSE
@@ -13,10 +13,10 @@ CONSTANTS
   IgnoreTimeout = FALSE
   ForcedWaits = FALSE
   LifoQueue = FALSE
-  DrainOnlyAtStop = TRUE
+  DrainOnlyAtStop = FALSE
   ErrKeepsPolling = FALSE
-  MaxPerPoll = 0
-  Rewake = FALSE
+  MaxPerPoll = 1
+  Rewake = TRUE
 SPECIFICATION Spec
 VIEW View
 INVARIANTS C07_Fifo C07_AllAccounted C07_QueuedMeansOwed C01_DrainReleases
